@@ -312,6 +312,55 @@ def naming_pairs(res, ctx, rng):
                     return
 
 
+def two_feeders(res, ctx, rng):
+    """The merged capture as it really arrives: one buffer per CPU.  ONE parser is fed by one live feed_generator() per
+    buffer and the results are taken in turns; threads migrate between the buffers.  Whatever order of consumption that
+    produces, every thread reports what a single feeder reports for that same order (and the order is a legal merge, so
+    the per-thread results are those of the thread alone)."""
+    for _ in range(ctx.pick(40, 1500)):
+        programs, tids = gen_programs(rng, pairs_everywhere=True)
+        order = H.random_interleaving(rng, programs)
+        items = [(tids[t], programs[t][i]) for t, i in order]
+        events = H.materialize(items, step=7)
+        n_cpus = rng.choice((2, 2, 3))
+        runs, cpu = [[] for _ in range(n_cpus)], 0
+        for e in events:
+            if rng.random() < 0.4:
+                cpu = rng.randrange(n_cpus)         # (records come in runs per CPU; a thread migrates)
+            runs[cpu].append(e)
+        parser = ev.new_parser()
+        consumed = []
+        feeders = [parser.feed_generator((consumed.append(e) or e) for e in buf) for buf in runs]
+        got, live = {}, [True] * n_cpus
+        case = {'programs': programs_case(programs, tids), 'order': [list(o) for o in order], 'via': f'{n_cpus} feeders'}
+        try:
+            while any(live):
+                for k in range(n_cpus):
+                    if live[k]:
+                        try:
+                            t = next(feeders[k])
+                            got.setdefault(t.ktraces[0].tid, []).append(trace_key(t))
+                        except StopIteration:
+                            live[k] = False
+            ref = ev.new_parser()
+            want = {}
+            for e in consumed:
+                t = ref.feed(e)
+                if t is not None:
+                    want.setdefault(t.ktraces[0].tid, []).append(trace_key(t))
+        except Exception as x:
+            res.violation(f'c05-raises-{core.exc_name(x)}', f'{n_cpus} live feeders on one parser: {x!r}', case)
+            return
+        res.count('captures_fed_by_several_live_feeders')
+        res.case(('feeders', tuple(order), n_cpus))
+        for tid in tids:
+            if sorted(map(repr, got.get(tid, []))) != sorted(map(repr, want.get(tid, []))):
+                res.violation('c05-per-thread-traces', f'thread {tid}: one parser fed by {n_cpus} live feed_generator()s (one per '
+                              f'CPU buffer, results taken in turns) reports {len(got.get(tid, []))} traces, a single feeder given '
+                              f'the records in the order they were consumed {len(want.get(tid, []))}', case)
+                return
+
+
 def programs_case(programs, tids):
     return [{'tid': tid, 'events': [[c, q, (p if isinstance(p, bytes) else list(p))] for c, q, p in prog]}
             for prog, tid in zip(programs, tids)]
@@ -325,6 +374,7 @@ def run(ctx):
         check_set(res, ctx, rng, programs, tids)
     census(res, ctx, rng)
     naming_pairs(res, ctx, rng)
+    two_feeders(res, ctx, rng)
     # many threads at once (tables that are capped, flushed in batches or keyed by a hash show only then)
     for _ in range(ctx.pick(3, 40)):
         n = rng.choice((17, 18, 33, 40, 70))
@@ -377,6 +427,7 @@ def run(ctx):
     res.require('schedules_through_a_dump', 20)
     res.require('census_schedules', 6000)
     res.require('naming_pair_schedules', 200)
+    res.require('captures_fed_by_several_live_feeders', 100)
     return res
 
 
